@@ -435,6 +435,17 @@ def hashseed_scope(res, pid, rng, tier):
             files[name] = ("hostname r%d\npassword pw%dxyz\nsnmp-server community comm%dqq ro\nip address 10.%d.2.3 255.255.255.0\n" % (k, k, k, k)
                            + "".join("ntp server %d.%d.7.9\n neighbor 2001:db8:%x::1 remote-as 1\n" % (20 + 3 * j, k + j, 16 * j + k) for j in range(8)))
         reqs.append({"kwargs": dict(anon_pwd=True, anon_ip=True, salt="dirsalt"), "files": files, "text": "", "before": []})
+    if pid == "C13":
+        from .jun_checks import ref_encrypt as _re13
+        # an anonymizer with another salt saw the same `$9$` line earlier in the process (the two salts start with different characters of
+        # one family of the `$9$` alphabet, so the replacements have the same layout); and an anonymizer with the same salt and options saw
+        # the line earlier at another position of its input.  Reference: a process in which nothing else was ever constructed
+        l9_ = 'secret "%s"\nusername u password 0 SiteSecret%d\n' % (_re13("plain13", "n"), res.seed)
+        for s1_, s2_ in (("Quagga-salt", "zebra-salt"), ("Bsalt", "Rsalt"), ("7salt", "Nsalt"), ("isalt", "Hsalt")):
+            reqs.append({"kwargs": dict(anon_pwd=True, anon_ip=False, salt=s2_), "text": l9_, "fresh_ref": True,
+                         "before": [dict(anon_pwd=True, anon_ip=False, salt=s1_, run_text=l9_)]})
+        reqs.append({"kwargs": dict(anon_pwd=True, anon_ip=False, salt="memoSalt"), "text": "username y password 0 otherAkey%d\n" % res.seed, "fresh_ref": True,
+                     "before": [dict(anon_pwd=True, anon_ip=False, salt="memoSalt", run_text=l9_ + "username y password 0 otherAkey%d\n" % res.seed)]})
     base = [dict(r, before=[]) for r in reqs]
     ref, err = run_in_process(base, 0)
     if ref is None:
